@@ -1,7 +1,6 @@
 (* C12 — the skeleton programs are guarded (every exchange / sub-run sits behind its debit), have
    a closed-form exchange bound, and turn a latched rejection into the policy failure. *)
 From Coq Require Import Relations.
-From Equations Require Import Equations.
 From Sdns Require Import Common.Base Gen.C12 C12.Model C12.Skeleton C12.Proofs_ledger C12.Proofs_run.
 Open Scope nat_scope.
 
@@ -140,7 +139,9 @@ Section WithQueryer.
      Fmax hosts in each family (or a DNAME follow-up) *)
   Definition round_cost : nat := S Smax * xmax + (2 * Fmax + 1) * Q.
 
-  Ltac brk :=
+  (* the guard [E] also occurs inside the program (it is the argument of the ob_* lemma), so work on a copy *)
+  Ltac dupE := match goal with E : _ = true |- _ => let E' := fresh "E" in pose proof E as E' end.
+  Ltac brk := dupE;
     repeat match goal with
     | E : (_ && _)%bool = true |- _ => apply Bool.andb_true_iff in E; destruct E
     | E : negb _ = true |- _ => apply Bool.negb_true_iff in E; subst
@@ -148,15 +149,23 @@ Section WithQueryer.
     | E : N.ltb _ _ = true |- _ => apply N.ltb_lt in E
     end.
 
-  Lemma resolve_guarded : forall c r depth nomin unch lvl n,
+  (* one unfolding of [resolve_acc]: both sides are convertible once the accessibility proof is a
+     constructor — no functional extensionality *)
+  Lemma resolve_acc_eq : forall c depth nomin unch lvl n a,
+    resolve_acc qmin v6 Smax Fmax nq c depth nomin unch lvl n a =
+    resolve_F qmin v6 Smax Fmax nq c depth nomin unch lvl n
+      (fun d' nm' u' l' n' p => resolve_acc qmin v6 Smax Fmax nq c d' nm' u' l' n' (Acc_inv a p)).
+  Proof. intros. destruct a. reflexivity. Qed.
+
+  Lemma resolve_guarded : forall c r depth nomin unch lvl n a,
     rank depth nomin unch lvl <= r -> lvl <= qmin ->
-    guarded (resolve qmin v6 Smax Fmax nq c depth nomin unch lvl n).
+    guarded (resolve_acc qmin v6 Smax Fmax nq c depth nomin unch lvl n a).
   Proof.
-    intros c r. induction r as [r IH] using lt_wf_ind. intros depth nomin unch lvl n Hr Hl.
-    assert (REC : forall d' nm' u' l' n', rank d' nm' u' l' < rank depth nomin unch lvl -> l' <= qmin ->
-                  guarded (resolve qmin v6 Smax Fmax nq c d' nm' u' l' n')).
+    intros c r. induction r as [r IH] using lt_wf_ind. intros depth nomin unch lvl n a Hr Hl.
+    assert (REC : forall d' nm' u' l' n' a', rank d' nm' u' l' < rank depth nomin unch lvl -> l' <= qmin ->
+                  guarded (resolve_acc qmin v6 Smax Fmax nq c d' nm' u' l' n' a')).
     { intros. eapply (IH (rank d' nm' u' l')); [lia|reflexivity|assumption]. }
-    clear IH. rewrite resolve_equation_1.
+    clear IH. rewrite resolve_acc_eq. unfold resolve_F.
     assert (Hp : cached_loop_depth_penalty = 10%N) by reflexivity.
     apply guarded_bind; [apply lookup_guarded|]. intros [ | | | | ].
     - (* LResp *)
@@ -194,25 +203,25 @@ Section WithQueryer.
     - destruct (inspectb _) as [E|E]; [|apply g_ret]. brk. apply REC; [|lia]. unfold rank, W in *; cbn [b2n negb]; lia.
   Qed.
 
-  Lemma resolve_costs : forall c r depth nomin unch lvl n,
+  Lemma resolve_costs : forall c r depth nomin unch lvl n a,
     rank depth nomin unch lvl <= r -> lvl <= qmin -> n <= Smax ->
-    costs (resolve qmin v6 Smax Fmax nq c depth nomin unch lvl n) (S r * round_cost).
+    costs (resolve_acc qmin v6 Smax Fmax nq c depth nomin unch lvl n a) (S r * round_cost).
   Proof.
-    intros c r. induction r as [r IH] using lt_wf_ind. intros depth nomin unch lvl n Hr Hl Hn.
-    assert (REC : forall d' nm' u' l' n', rank d' nm' u' l' < rank depth nomin unch lvl -> l' <= qmin -> n' <= Smax ->
-                  costs (resolve qmin v6 Smax Fmax nq c d' nm' u' l' n') (r * round_cost)).
-    { intros d' nm' u' l' n' Hlt Hl' Hn'.
+    intros c r. induction r as [r IH] using lt_wf_ind. intros depth nomin unch lvl n a Hr Hl Hn.
+    assert (REC : forall d' nm' u' l' n' a', rank d' nm' u' l' < rank depth nomin unch lvl -> l' <= qmin -> n' <= Smax ->
+                  costs (resolve_acc qmin v6 Smax Fmax nq c d' nm' u' l' n' a') (r * round_cost)).
+    { intros d' nm' u' l' n' a' Hlt Hl' Hn'.
       apply c_weaken with (n := S (rank d' nm' u' l') * round_cost); [|apply Nat.mul_le_mono_r; lia].
       eapply (IH (rank d' nm' u' l')); [lia|reflexivity|assumption|assumption]. }
-    clear IH. rewrite resolve_equation_1.
+    clear IH. rewrite resolve_acc_eq. unfold resolve_F.
     assert (Hp : cached_loop_depth_penalty = 10%N) by reflexivity.
     (* split the budget: this round's lookup, this round's sub-queries, the rest *)
     replace (S r * round_cost) with (S n * xmax + ((S Smax - S n) * xmax + (2 * Fmax + 1) * Q + r * round_cost))
       by (unfold round_cost; nia).
     apply costs_bind; [apply lookup_costs|].
     set (rest := r * round_cost).
-    assert (RECw : forall d' nm' u' l' n' extra, rank d' nm' u' l' < rank depth nomin unch lvl -> l' <= qmin -> n' <= Smax ->
-                   costs (resolve qmin v6 Smax Fmax nq c d' nm' u' l' n') (extra + rest)).
+    assert (RECw : forall d' nm' u' l' n' a' extra, rank d' nm' u' l' < rank depth nomin unch lvl -> l' <= qmin -> n' <= Smax ->
+                   costs (resolve_acc qmin v6 Smax Fmax nq c d' nm' u' l' n' a') (extra + rest)).
     { intros. eapply c_weaken; [apply REC; eassumption|lia]. }
     intros [ | | | | ].
     - apply c_choose. intros [|[|cls]] _.
@@ -265,7 +274,7 @@ Section WithQueryer.
   Proof.
     intros c. unfold handle. apply g_enf. intros []; try apply g_ret.
     apply g_choose. intros l0 Hl0. apply g_choose. intros n0 _.
-    apply guarded_bind; [eapply resolve_guarded; [reflexivity|exact Hl0]|].
+    apply guarded_bind; [unfold resolve; eapply resolve_guarded; [reflexivity|exact Hl0]|].
     intros r. apply g_enf. intros []; apply g_ret.
   Qed.
 
@@ -274,7 +283,7 @@ Section WithQueryer.
     intros c. unfold handle. apply c_enf. intros []; try apply c_ret.
     apply c_choose. intros l0 Hl0. apply c_choose. intros n0 Hn0.
     apply c_weaken with (n := handle_cost + 0); [|lia]. apply costs_bind.
-    - unfold handle_cost, rounds. apply resolve_costs; [|exact Hl0|exact Hn0]. unfold rank. lia.
+    - unfold handle_cost, rounds, resolve. apply resolve_costs; [|exact Hl0|exact Hn0]. unfold rank. lia.
     - intros r. apply c_enf. intros []; apply c_ret.
   Qed.
 
@@ -366,10 +375,10 @@ Section Closed.
     assert (IHc : forall cc, costs (query maxdepth qmin v6 Smax Fmax q cc) (A_cost * geom B_fan q)) by (intros; apply IH).
     split.
     - apply g_int_s; [|intros; apply g_ret].
-      apply guarded_bind; [eapply pipeline_guarded; eassumption|]. intros r. apply g_enf. intros []; apply g_ret.
+      apply guarded_bind; [eapply pipeline_guarded; eassumption|]. intros r. apply g_end. apply g_enf. intros []; apply g_ret.
     - apply c_int; [|intros; apply c_ret]. apply c_sub.
       apply c_weaken with (n := pipeline_cost maxdepth qmin Smax Fmax (A_cost * geom B_fan q) + 0).
-      + apply costs_bind; [apply pipeline_costs; assumption|]. intros r. apply c_enf. intros []; apply c_ret.
+      + apply costs_bind; [apply pipeline_costs; assumption|]. intros r. apply c_end. apply c_enf. intros []; apply c_ret.
       + rewrite pipeline_cost_split. cbn [geom]. nia.
   Qed.
 
